@@ -191,6 +191,9 @@ func rpRun(sc rpScenario, oracle string) (viol string) {
 	}
 	c := NewConnectionHandler(env, env, role, "LOCALID", "remoteski", sc.StoredID)
 	c.smeState = model.ShipMessageExchangeState(sc.State)
+	if sc.State >= uint(model.SmeStateComplete) {
+		sc.Buffered = 0 // a completed (or failed) connection has no backlog: object invariant B1
+	}
 	for i := 0; i < sc.Buffered; i++ {
 		c.spineBuffer = append(c.spineBuffer, []byte(fmt.Sprintf(`{"datagram":[{"b":%d}]}`, i)))
 	}
